@@ -69,7 +69,8 @@ def gen_tree(rng, depth, ids, dups=True):
         n = rng.choice([0, 1, 2, 2, 3, 4])
         keys = rng.sample(range(0, 7), n)
         if dups and n >= 2 and rng.random() < 0.06:
-            keys[-1] = keys[0]
+            j = rng.randrange(1, n)              # the repeated key stands anywhere behind its first occurrence, also in front of further keys
+            keys[j] = keys[rng.randrange(0, j)]
             saved = UNM[0]
             UNM[0] = 0.0            # no user-controlled part below a display that falls back to ValueAdapter
             try:
